@@ -60,6 +60,9 @@ type Oblig struct {
 	Solver  string
 	TimeMS  int64
 	Model   string
+	noSplit bool
+	quickOnly bool
+	FailGoal string
 	Relaxed string // solver output of the relaxed query (candidate model)
 	Raw     string
 	Inputs  map[string]string // name -> SMT term of function inputs (for replay)
@@ -91,6 +94,7 @@ type State struct {
 	results []Val // set at return
 	inl     *inlineFrame
 	panicked bool
+	memo    map[string]Val
 }
 
 type inlineFrame struct {
@@ -119,6 +123,10 @@ func (st *State) clone() *State {
 	}
 	for k, v := range st.visits {
 		n.visits[k] = v
+	}
+	n.memo = make(map[string]Val, len(st.memo))
+	for k, v := range st.memo {
+		n.memo[k] = v
 	}
 	n.defers = append([]deferred(nil), st.defers...)
 	n.trace = append([]int(nil), st.trace...)
@@ -225,6 +233,7 @@ func (r *FnRun) freshVal(st *State, t types.Type, hint string) Val {
 		v := r.fresh(hint, "Ref")
 		st.assume(sx("<", sx("rootid", v), st.alloc))
 		st.assume(sNot(sx("(_ is ibox)", v)))
+		st.assume(sNot(sEq(sx("rootref", v), ghostRoot)))
 		r.assumeTy(st, v, t)
 		return refVal(v, t)
 	case KOpaque:
@@ -242,6 +251,7 @@ func (r *FnRun) freshVal(st *State, t types.Type, hint string) Val {
 		st.assume(sImp(sEq(b, "null"), sEq(c, "0")))
 		st.assume(sNot(sx("(_ is ibox)", b)))
 		st.assume(sOr(sEq(b, "null"), sx("<=", sx("+", o, c), sx("alen", b))))
+		st.assume(sOr(sEq(b, "null"), sAnd(sEq(sx("elty", b), fmt.Sprint(r.W.eltyFor(t.Underlying().(*types.Slice).Elem()))), sNot(sEq(sx("rootref", b), ghostRoot)))))
 		return Val{K: KSlice, T: t, Bas: b, Off: o, Len: l, Cap: c}
 	case KIface:
 		tg := r.fresh(hint+".t", "Int")
@@ -379,6 +389,19 @@ func (r *FnRun) bind(st *State, term, hint, sort string) string {
 }
 
 func (r *FnRun) load(st *State, p string, t types.Type, hint string) Val {
+	if r.noBind == 0 && st.memo != nil {
+		key := p + "|" + types.TypeString(t, nil) + "|" + st.heap["I"] + st.heap["B"] + st.heap["R"] + st.heap["S"] + st.heap["A"]
+		if v, ok := st.memo[key]; ok {
+			return v
+		}
+		v := r.load1(st, p, t, hint)
+		st.memo[key] = v
+		return v
+	}
+	return r.load1(st, p, t, hint)
+}
+
+func (r *FnRun) load1(st *State, p string, t types.Type, hint string) Val {
 	switch kindOf(t) {
 	case KInt:
 		v := r.bind(st, r.loadInt(st, p), hint, "Int")
@@ -389,6 +412,7 @@ func (r *FnRun) load(st *State, p string, t types.Type, hint string) Val {
 	case KRef:
 		v := r.bind(st, sx("select", st.heap["R"], p), hint, "Ref")
 		st.assume(sx("<", sx("rootid", v), st.alloc))
+		st.assume(sNot(sEq(sx("rootref", v), ghostRoot)))
 		r.assumeTy(st, v, t)
 		return refVal(v, t)
 	case KOpaque:
@@ -405,6 +429,7 @@ func (r *FnRun) load(st *State, p string, t types.Type, hint string) Val {
 		st.assume(sAnd(sx("<=", "0", o), sx("<=", "0", l), sx("<=", l, c), sx("<", sx("rootid", b), st.alloc)))
 		st.assume(sImp(sEq(b, "null"), sEq(c, "0")))
 		st.assume(sOr(sEq(b, "null"), sx("<=", sx("+", o, c), sx("alen", b))))
+		st.assume(sOr(sEq(b, "null"), sAnd(sEq(sx("elty", b), fmt.Sprint(r.W.eltyFor(t.Underlying().(*types.Slice).Elem()))), sNot(sEq(sx("rootref", b), ghostRoot)))))
 		return Val{K: KSlice, T: t, Bas: b, Off: o, Len: l, Cap: c}
 	case KIface:
 		tg := r.bind(st, sx("select", st.heap["I"], sx("fld", p, "0")), hint+".t", "Int")
@@ -783,7 +808,7 @@ func (r *FnRun) assumeTy(st *State, v string, t types.Type) {
 	id := r.W.tagFor(pt.Elem())
 	st.assume(sOr(sEq(v, "null"), sEq(sx("tyof", v), fmt.Sprint(id))))
 	if at, ok := pt.Elem().Underlying().(*types.Array); ok {
-		st.assume(sOr(sEq(v, "null"), sEq(sx("alen", v), fmt.Sprint(at.Len()))))
+		st.assume(sOr(sEq(v, "null"), sAnd(sEq(sx("alen", v), fmt.Sprint(at.Len())), sEq(sx("elty", v), fmt.Sprint(r.W.eltyFor(at.Elem()))))))
 	}
 	if !r.W.embeddable[types.TypeString(pt.Elem(), nil)] {
 		// no type in the program contains a T by value: a *T points to a whole object
